@@ -417,6 +417,9 @@ def eval_stream(c, gen_sub, independent=True, budget_ms=3000, gen_extra=(), judg
         return None
     rd = lambda n: open(os.path.join(c.work, n), encoding="utf-8", errors="replace").read().split("\n")
     R, I, M = rd("req.txt"), rd("impl.txt"), rd("model.txt")
+    # side.txt (line-aligned with impl.txt): what the harness reports besides the compared line, for the judge
+    SIDE = [l or None for l in rd("side.txt")] if os.path.exists(os.path.join(c.work, "side.txt")) else []
+    SIDE += [None] * (len(I) - len(SIDE))
     # a `timeout` under a loaded machine is not evidence: re-run those requests alone, one
     # worker, with a generous budget, and keep the second answer
     slow = [i for i, a in enumerate(I) if a == "timeout"]
@@ -494,6 +497,8 @@ def eval_stream(c, gen_sub, independent=True, budget_ms=3000, gen_extra=(), judg
                     aux = json.loads(AUX[i])
                 except ValueError:
                     aux = None
+            if SIDE[i] is not None:
+                aux = dict(aux or {}, _side=SIDE[i])
             bad = judge(text, I[i], aux)
             if bad:
                 oracle_checked += 0
